@@ -129,6 +129,21 @@ impl World {
                 }
             }
         }
+        // C09(a) as a state invariant: a leader's log holds at most one membership change of
+        // its own term beyond its applied index (the auto-leave entry the library appends by
+        // itself included; inherited entries of older terms are the previous leaders' business)
+        if post.role == StateRole::Leader {
+            let cnt = (post.applied + 1..=post.last)
+                .filter(|k| post.at(*k).map(|x| is_conf(x.2) && x.0 == post.term).unwrap_or(false))
+                .count();
+            if cnt > 1 {
+                ctx.v(
+                    "C09",
+                    "more than one own-term membership change beyond applied",
+                    format!("leader {} holds {} own-term conf entries in ({}, {}]", id, cnt, post.applied, post.last),
+                );
+            }
+        }
         // C07: the library never counts as applied what the application has not applied yet
         if let Some(l) = self.live(i) {
             let app = l.rn.store().app.applied;
@@ -1155,7 +1170,11 @@ impl World {
                 // the same proposal) makes this one a second pending change
                 let pending = (pre.applied + 1..e.index).any(|k| post.at(k).map(|x| is_conf(x.2)).unwrap_or(false));
                 let changes_empty = cc.changes.is_empty();
-                let must_neutralise = pending || (pre.joint && !changes_empty) || (!pre.joint && changes_empty);
+                // classified by what apply_conf_change will do with the entry: only an empty
+                // change list with transition Auto leaves a joint configuration; an empty list
+                // with an explicit or implicit transition asks to *enter* one
+                let leaves = cc.leave_joint();
+                let must_neutralise = pending || (pre.joint && !leaves) || (!pre.joint && leaves);
                 if must_neutralise {
                     ctx.v(
                         "C09",
@@ -1883,7 +1902,10 @@ impl World {
             if rs.request_ctx.len() == 4 {
                 b.copy_from_slice(&rs.request_ctx);
             }
-            let c = u32::from_le_bytes(b);
+            let mut c = u32::from_le_bytes(b);
+            if self.scen.empty_first_ctx && rs.request_ctx.is_empty() {
+                c = 1; // the first request of the run carries the empty context
+            }
             match self.ghost.reads.get(&c) {
                 None => ctx.v("C08", "read state for an unknown request", format!("node {} ctx {:?}", id, rs.request_ctx)),
                 Some((issuer, g)) => {
